@@ -27,6 +27,7 @@ def geometry_violation(doc, impl_out):
         for kid in box['kids']:
             heights(kid)
     heights(doc['root'])
+    has_fixed = any(st['height'] != 'auto' or st['minH'] or st['maxH'] != 'inf' for st in styles.values())
     pages = sx.loads_line(impl_out)
     for number, page in enumerate(pages):
         first = [True]
@@ -34,10 +35,20 @@ def geometry_violation(doc, impl_out):
 
         def walk(frag):
             if frag[0] == 'p':
-                for i, y in frag[-1]:
+                lines = frag[-1]
+                for k, (i, y) in enumerate(lines):
                     bottom = Fraction(y) + line_h[int(frag[1])]
                     if bottom > limit and not first[0]:
                         return f'page {page[1]}: line {i} of paragraph {frag[1]} ends at {bottom} > {doc["pageH"]}'
+                    # the last line of a paragraph that ends on this page carries the paragraph's bottom padding
+                    # and border (block.py _linebox_layout: offset_y when draw_bottom_decoration)
+                    if (k == len(lines) - 1 and int(frag[1]) not in nxt and not first[0]
+                            and styles[int(frag[1])]['height'] == 'auto' and not has_fixed):
+                        deco = Fraction(frag[7]) + Fraction(frag[9])
+                        if deco > 0 and bottom + deco > limit:
+                            return (f'page {page[1]}: the last line {i} of paragraph {frag[1]} with the paragraph\'s '
+                                    f'bottom padding/border ends at {bottom + deco} > {doc["pageH"]} and is not the '
+                                    f'first line placed on the page')
                     first[0] = False
             else:
                 for kid in frag[-1]:
